@@ -360,6 +360,10 @@ def geometry_case(draw, tier):
 
 # ---------------------------------------------------------------- save / load, equals
 
+SAVE_NAMES = [("a.npz", "b.npz"), ("counts_n.npz", "counts_p.npz"), ("run.z.npz", "run.p.npz"), ("x.npz", "xn.npz"), ("data1.npz", "data2.npz"),
+              ("pz.npz", "zp.npz")]
+
+
 def obs_saveload(case):
     from npstructures import RaggedArray
 
@@ -367,10 +371,15 @@ def obs_saveload(case):
         ra = construct(case)
         d = tempfile.mkdtemp(prefix="verif-c01-")
         try:
-            fn = os.path.join(d, "a.npz")
+            # the file name is the caller's: a generated stem, with or without the extension; a second array is saved under a
+            # sibling name before the first is loaded again
+            names = SAVE_NAMES[(len(case["a"]["vals"]) + len(case["a"]["lens"])) % len(SAVE_NAMES)]
+            fn, fn2 = os.path.join(d, names[0]), os.path.join(d, names[1])
             ra.save(fn)
+            RaggedArray(np.array([7, 8, 9], dtype=np.int16), [1, 2]).save(fn2)
             back = RaggedArray.load(fn)
-            out = {"back": norm(back), "equals": bool(ra.equals(back)), "src": ra.tolist()}
+            other = RaggedArray.load(fn2)
+            out = {"back": norm(back), "equals": bool(ra.equals(back)), "src": ra.tolist(), "other": other.tolist()}
         finally:
             shutil.rmtree(d, ignore_errors=True)
         return out
@@ -391,6 +400,8 @@ def body_saveload(case, ctx):
     d = diff_obs(exp_back, g["back"])
     if d:
         raise Violation("saveload:differs", where=d)
+    if g.get("other") != [[7], [8, 9]]:
+        raise Violation("saveload:sibling-file-differs", got=g.get("other"))
     has_nan = a["dt"].startswith("float") and any(isinstance(v, float) and v != v for v in a["vals"])
     if not has_nan and g["equals"] is not True:
         raise Violation("saveload:equals-false", got=g)
